@@ -190,7 +190,7 @@ def _shard(ctx, shard, nshards, max_slashes):
             ctx.report_direct(check_shipped('tests', s), case)
         ctx.notes['shipped_string_occurrences'] = len(strings)
         ctx.notes['shipped_distinct_table_string_pairs'] = len(seen)
-    _hyp(ctx, ctx.scale(2500, 20000))
+    _hyp(ctx, ctx.scale(2500, 80000))
     if shard == 1 and not ctx.quick:
         from vlib import fuzz
         fuzz.campaign(ctx, 'c05', 150000)
